@@ -336,7 +336,10 @@ LAYOUTS = [
     ('offset, partial overlap', [0.0, 1.0, 2.0], [0.5, 1.5, 2.5], 'linear'),
     ('different rates', [0.0, 0.5, 1.0, 1.5, 2.0], [0.0, 1.0, 2.0], 'linear'),
     ('partial span', [0.0, 1.0, 2.0, 3.0], [1.0, 2.0], 'all'),
+    # a table is identified by its column NAMES: attitude columns first / in between must behave alike
+    ('equal stamps, permuted columns', [0.0, 1.0], [0.0, 1.0], 'permuted'),
 ]
+PERMUTED = ['roll', 'lat', 'lon', 'heading', 'alt', 'VN', 'pitch', 'VE', 'VD']
 
 
 def section_frames(rep, li, mutate=None):
@@ -357,6 +360,8 @@ def section_frames(rep, li, mutate=None):
     S.C.mod_mode = 'split'
     S.C.mod_split = 3
     cols = ['lat', 'lon', 'alt', 'VN', 'VE', 'VD'] + (['roll', 'pitch', 'heading'] if colsel != 'linear' else [])
+    if colsel == 'permuted':
+        cols = list(PERMUTED)
 
     def frame(tag, times):
         rows = []
@@ -590,6 +595,8 @@ def replay(spec):
     mk = lambda times: pd.DataFrame(base[:len(cols)] + rng.randn(len(times), len(cols)) * ([1e-3, 1e-3, 10, 1, 1, 1, 3, 3, 3][:len(cols)]),
                                     columns=cols, index=pd.Index(times, name='time'))
     A, B = mk(ta), mk(tb)
+    if colsel == 'permuted':
+        A, B = A[PERMUTED], B[PERMUTED]
     if colsel == 'all-node':
         B = A.iloc[::2].copy()
     dab, dba, daa = transform.compute_state_difference(A, B), transform.compute_state_difference(B, A), transform.compute_state_difference(A, A)
@@ -606,5 +613,8 @@ def replay(spec):
         rs = None
         fails.append('layout %s: resample_state raises %s (%s) for requested times beyond the span, which are documented to be dropped' % (name, type(e).__name__, str(e)[:100]))
     if rs is not None and (list(rs.index) != ta or list(rs.columns) != list(A.columns) or np.abs(rs.values - A.values).max() > 1e-9):
-        fails.append('layout %s: resampling does not reproduce the original rows / drops outside times / keeps the column order' % name)
+        fails.append('layout %s: resampling does not reproduce the original rows / drops outside times / keeps the column order (columns %s -> %s)' % (name, list(A.columns), list(rs.columns)))
+    want_cols = [{'lat': 'north', 'lon': 'east', 'alt': 'down'}.get(c, c) for c in A.columns]
+    if list(dab.columns) != want_cols:
+        fails.append('layout %s: the difference table does not keep the column order (%s -> %s)' % (name, want_cols, list(dab.columns)))
     return {'violated': bool(fails), 'detail': fails}
